@@ -1,0 +1,10 @@
+//go:build verif
+
+// Contracts and ghost/spec functions for package chore, read by the /verif condition
+// generator (govc). Compiled only with -tags verif; adds no behaviour.
+package chore
+
+//@ contract updateRules
+//@   tags C17 C14
+//@   opt scan-complete C17
+//@   results out err
